@@ -78,7 +78,7 @@ type MTxn struct {
 	Log   []MLogEntry
 	// Raw: slices handed out while Txn.RawRead was set. LMDB's contract: such memory is valid
 	// only until the next update operation in the transaction or the end of the transaction;
-	// the model then overwrites it with arbitrary bytes (see invalidate).
+	// the model then overwrites it with a garbage pattern (see invalidate).
 	Raw [][]byte
 }
 
@@ -94,11 +94,12 @@ func (t *MTxn) hand(b []byte) []byte {
 }
 
 // invalidate: an update operation or the end of the transaction makes every RawRead slice
-// handed out so far point at arbitrary bytes (page reuse, copy-on-write, node moves).
+// handed out so far point at garbage (page reuse, copy-on-write, node moves).
 func (t *MTxn) invalidate() {
 	for _, b := range t.Raw {
-		g := NondetU8("rawread.garbage")
-		copy(b, bytes.Repeat([]byte{g}, len(b)))
+		// a fixed garbage pattern: an arbitrary (symbolic) one makes every later comparison
+		// fork; a counterexample is replayed on real LMDB anyway
+		copy(b, bytes.Repeat([]byte{0xDB}, len(b)))
 	}
 	t.Raw = nil
 }
